@@ -133,6 +133,27 @@ func genC04(tier string, r *rng, emit func(string)) {
 		emit(fmt.Sprintf("prog %s new:rm:2,3:1;copyto:0:0", dt))
 	}
 	recycleMotifs(emit)
+	// column-major parents sliced with FEWER slice arguments than axes (row ranges, single rows),
+	// every whole-view write and copy: such a view is strided and must be treated as one
+	for _, dt := range []string{"f64", "i"} {
+		for _, order := range []string{"cm", "cmb"} {
+			for _, sh := range []string{"4,4", "3,4", "2,3,4"} {
+				for _, sl := range []string{"1.3.1", "0.2.1", "1.2.0", "1.3.1/_", "0.2.1/1.3.1"} {
+					vsh, ok := shapeAfter("f64", fmt.Sprintf("new:%s:%s:10;slice:0:%s", order, sh, sl), 1)
+					if !ok || len(vsh) == 0 {
+						continue
+					}
+					pre := fmt.Sprintf("new:%s:%s:10;slice:0:%s", order, sh, sl)
+					for _, w := range []string{"memset:1:1", "zero:1", "bins:add:1:2:right:unsafe", "bins:mul:1:2:left:unsafe", "un:neg:1:unsafe",
+						fmt.Sprintf("new:rm:%s:100;copy:1:2", fints(vsh)), fmt.Sprintf("new:rm:%s:100;copy:2:1", fints(vsh)),
+						fmt.Sprintf("new:rm:%s:100;copyto:1:2", fints(vsh)), "mat:1;memset:2:3", "clone:1;memset:2:3",
+						fmt.Sprintf("new:rm:%s:1;bin:add:1:2:unsafe", fints(vsh)), "safeT:1:_;memset:2:3"} {
+						emit(fmt.Sprintf("prog %s %s;%s", dt, pre, w))
+					}
+				}
+			}
+		}
+	}
 	dts := []string{"f64", "i", "u8", "str", "f32", "c64", "b", "i8"}
 	for i := 0; i < n; i++ {
 		sh := randShape(r, 1, 4, 4)
